@@ -85,8 +85,32 @@ pub fn maps(ctx: &Ctx) -> Stats {
             st.sample(Json::obj().set("k", Json::u(3)).set("first_columns", Json::Arr(reference.iter().take(6).map(|&c| Json::s(model::decode(c, 3))).collect())).set("count", Json::u(reference.len())));
         }
     }
+    // the same thread asks again, in a different order (repeats of one k, descending k, a small k after a large one):
+    // every answer must be what the first pass gave — nothing may be carried over from an earlier call
+    let order: Vec<usize> = [kmax, kmax, kmax - 1, kmax, 9.min(kmax), 9.min(kmax), 3, 8.min(kmax), 2, kmax, 1, 5, 5].into_iter().collect();
+    for (i, &k) in order.iter().enumerate() {
+        if ctx.expired() {
+            st.truncated = true;
+            break;
+        }
+        let reference = model::canonical_list(k);
+        st.case(true, mix(k as u64) ^ mix(7000 + i as u64));
+        st.class("repeated / reordered request");
+        let case = Json::obj().set("k", Json::u(k)).set("request_order_so_far", Json::Arr(order[..=i].iter().map(|&x| Json::u(x)).collect()));
+        match guarded(|| KmerGenerator::kmer_pos_maps(k)) {
+            Err(p) => st.violate(&panic_sig(&p), format!("kmer_pos_maps({}) panicked on a repeated request: {}", k, p), case),
+            Ok((pos_map, pos_kmer, count)) => {
+                if count != reference.len() || pos_kmer.len() != reference.len() {
+                    st.violate("posmap.repeat.count", format!("k={} asked again: column count {} / inverse size {}, expected {}", k, count, pos_kmer.len(), reference.len()), case);
+                } else if reference.iter().enumerate().any(|(rank, &code)| pos_map.get(code as usize) != Some(&rank) || pos_kmer.get(&rank) != Some(&code)) {
+                    st.violate("posmap.repeat.rank", format!("k={} asked again: a canonical k-mer does not map to its rank (or back)", k), case);
+                }
+            }
+        }
+    }
     st.set_extra("exhaustive", Json::Bool(!st.truncated));
     st.set_extra("per_k", per_k);
+    st.set_extra("rayon_num_threads_env", Json::s(std::env::var("RAYON_NUM_THREADS").unwrap_or_else(|_| "unset".into())));
     st
 }
 
